@@ -70,3 +70,41 @@ func VerifC16ImportCycle() {
 	_, err := c.getOrAdd("a", inner)
 	verifAssert("cycle-is-an-error", err != nil)
 }
+
+// verif:bound VerifC16TwoKeys three goroutines: two import key a (the first one slowly), one imports key b meanwhile (its completion broadcasts on the one shared condition variable); all interleavings within the context bound
+// verif:cover VerifC16TwoKeys ran
+func VerifC16TwoKeys() {
+	c := newImportCache()
+	callsA := 0
+	addA := func() (rel.Expr, error) {
+		callsA++
+		verifYield()
+		verifYield()
+		verifYield()
+		return rel.NewNumber(42), nil
+	}
+	addB := func() (rel.Expr, error) { return rel.NewNumber(7), nil }
+	var v1, v2, v3 rel.Expr
+	var e1, e2, e3 error
+	d2, d3 := make(chan struct{}), make(chan struct{})
+	verifGo(func() {
+		v2, e2 = c.getOrAdd("a", addA)
+		close(d2)
+	})
+	verifGo(func() {
+		verifYield() // natively: let the second importer of a reach its wait first
+		v3, e3 = c.getOrAdd("b", addB)
+		close(d3)
+	})
+	v1, e1 = c.getOrAdd("a", addA)
+	<-d2
+	<-d3
+	verifCover("ran")
+	verifAssert("no-error", e1 == nil && e2 == nil && e3 == nil)
+	verifAssert("every-importer-gets-the-value", v1 != nil && v2 != nil && v3 != nil)
+	if v1 != nil && v2 != nil && v3 != nil {
+		verifAssert("same-value-for-both-importers", v1.(rel.Value).Equal(rel.NewNumber(42)) && v2.(rel.Value).Equal(rel.NewNumber(42)))
+		verifAssert("other-key-unaffected", v3.(rel.Value).Equal(rel.NewNumber(7)))
+		verifAssert("imported-once", callsA == 1)
+	}
+}
